@@ -12,6 +12,7 @@ import re
 import shutil
 import subprocess
 import sys
+import threading
 import time
 from concurrent.futures import ThreadPoolExecutor
 
@@ -105,8 +106,10 @@ def gen_config(cfg, root=None):
         return vals[k]
 
     txt = re.sub(r'\$\{(\w+)\}', sub, tpl)
-    with open(out, 'w') as f:
+    tmp = out + '.tmp%d.%d' % (os.getpid(), threading.get_ident())
+    with open(tmp, 'w') as f:
         f.write(txt)
+    os.replace(tmp, out)  # atomic: a concurrent check of the same tree never sees a partial file
     return d
 
 
@@ -215,11 +218,13 @@ def extract(pairs, root=None, jobs=16):
         if not os.path.exists(out):
             todo.append((unit, cfg, out))
 
+    flags_of = {cfg: flags(cfg, root) for cfg in sorted({c for _, c, _ in todo})}  # configs generated up front
+
     def run(job):
         unit, cfg, out = job
         tmp = out + '.tmp%d' % os.getpid()
         roots = ','.join([os.path.join(root, 'include'), os.path.join(root, 'src'), PROBES])
-        fl = flags(cfg, root)
+        fl = flags_of[cfg]
         if _is_test_unit(unit, root):
             fl = fl + ['-I' + os.path.join(root, 'test'), '-DYACLIB_CI_SLOWDOWN=1']
         cmd = [TOOL, '-o', tmp, '--roots=' + roots, unit, '--'] + fl
@@ -241,6 +246,14 @@ def extract(pairs, root=None, jobs=16):
     if todo:
         with ThreadPoolExecutor(max_workers=jobs) as ex:
             errs = [e for e in ex.map(run, todo) if e]
+        if os.path.basename(cd) != tree_hash(root):
+            # the sources changed while they were being parsed: the new fact files may describe either version
+            for _, _, out in todo:
+                try:
+                    os.unlink(out)
+                except OSError:
+                    pass
+            raise AnalysisBroken('the analysed sources under %s changed during extraction; run the check again' % root)
         if errs:
             msg = '\n'.join('unit %s does not parse in configuration %s:\n%s' % e for e in errs[:3])
             raise AnalysisBroken(msg)
@@ -304,7 +317,7 @@ def strip_targs(name):
 
 class Function:
     __slots__ = ('raw', 'S', 'key', 'qn', 'qnf', 'n', 'file', 'line', 'eline', 'ret', 'cls', 'clsq', 'cta', 'fta', 'ov',
-                 'parent', 'unit', 'cfgid', '_nodes', '_cfg', '_locals', '_parents', 'flags')
+                 'parent', 'unit', 'cfgid', '_nodes', '_cfg', '_locals', '_parents', 'flags', '_single_defs')
 
     def __init__(self, raw, S, unit, cfgid):
         self.raw = raw
@@ -447,6 +460,118 @@ class Function:
             st.extend(ns[j].get('ch', ()))
         return out
 
+    # ---- value flow through single-assignment locals (named sub-expressions, reference aliases)
+    @property
+    def single_defs(self):
+        """{local id: initialiser node} of locals that are declared with an initialiser and never written again in
+        this function body (no assignment, compound assignment, ++/--, and their address is not taken)"""
+        try:
+            return self._single_defs
+        except AttributeError:
+            pass
+        inits = {}
+        written = set()
+        for n in self.own_nodes():
+            k = n['k']
+            if k == 'DeclStmt':
+                for v in n.get('vars', ()):
+                    if v.get('id', -1) >= 0 and 'init' in v:
+                        if v['id'] in inits:
+                            written.add(v['id'])
+                        inits[v['id']] = v['init']
+            elif k in ('BinaryOperator', 'CompoundAssignOperator') and n.get('op', '').endswith('=') and \
+                    n['op'] not in ('==', '!=', '<=', '>='):
+                l = self.sn(n['ch'][0])
+                if l is not None and l['k'] == 'DeclRefExpr' and 'id' in l:
+                    written.add(l['id'])
+            elif k == 'UnaryOperator' and n.get('op') in ('++', '--', '&'):
+                l = self.sn(n['ch'][0])
+                if l is not None and l['k'] == 'DeclRefExpr' and 'id' in l:
+                    written.add(l['id'])
+            if n.get('args'):
+                # a local bound to a reference parameter may be written by the callee (compare_exchange's expected):
+                # by-value arguments carry an LValueToRValue conversion, by-reference ones do not
+                for a in n['args']:
+                    j = a
+                    byval = False
+                    while j is not None and j >= 0:
+                        m = self.nodes[j]
+                        if m.get('cast') == 'LValueToRValue':
+                            byval = True
+                            break
+                        if m['k'] in STRIP and m.get('ch'):
+                            j = m['ch'][0]
+                            continue
+                        break
+                    if not byval and j is not None and j >= 0:
+                        m = self.nodes[j]
+                        if m['k'] == 'DeclRefExpr' and 'id' in m:
+                            t = m.get('t', '')
+                            try:
+                                decl_t = self.locals[m['id']].get('t', '')
+                            except (IndexError, KeyError, TypeError):
+                                decl_t = ''
+                            # a reference local is an alias that can never be re-seated; a const local never changes
+                            if not t.startswith('const ') and not decl_t.rstrip().endswith('&'):
+                                written.add(m['id'])
+        params = set(self.params)
+        d = {i: init for i, init in inits.items() if i not in written and i not in params}
+        self._single_defs = d
+        return d
+
+    def resolve(self, i, limit=6):
+        """the expression a (stripped) node stands for: a reference / single-assignment local is replaced by its
+        initialiser, repeatedly"""
+        j = self.strip(i)
+        while limit > 0 and j is not None and j >= 0:
+            n = self.nodes[j]
+            if n['k'] == 'DeclRefExpr' and n.get('id') in self.single_defs:
+                j = self.strip(self.single_defs[n['id']])
+                limit -= 1
+                continue
+            break
+        return j
+
+    def resolve_neg(self, i, limit=6):
+        """(node index, negated): the expression i stands for after removing `!` and following single-assignment
+        locals (`const bool last = x.SubEqual(1); return !last;` -> (SubEqual call, True))"""
+        neg = False
+        j = self.strip(i)
+        while j is not None and j >= 0 and limit > 0:
+            n = self.nodes[j]
+            if n['k'] == 'UnaryOperator' and n.get('op') == '!':
+                neg = not neg
+                j = self.strip(n['ch'][0])
+                continue
+            if n['k'] == 'DeclRefExpr' and n.get('id') in self.single_defs:
+                j = self.strip(self.single_defs[n['id']])
+                limit -= 1
+                continue
+            break
+        return j, neg
+
+    def deep_descendants(self, i, limit=4):
+        """descendants of i, continued through the initialisers of single-assignment locals"""
+        out = []
+        seen = set()
+        work = [(i, limit)]
+        while work:
+            j, lim = work.pop()
+            for d in self.descendants(j):
+                if d in seen:
+                    continue
+                seen.add(d)
+                out.append(d)
+                n = self.nodes[d]
+                if lim > 0 and n['k'] == 'DeclRefExpr' and n.get('id') in self.single_defs:
+                    work.append((self.single_defs[n['id']], lim - 1))
+        return out
+
+    def xtext(self, i, depth=0):
+        """text() with single-assignment locals expanded to their initialisers (named sub-expressions are
+        transparent for the structural rules)"""
+        return self.text(i, depth, expand=4)
+
     def calls(self, name_re=None):
         """all call-like nodes (CallExpr family + CXXConstructExpr) with a resolved callee"""
         out = []
@@ -461,8 +586,8 @@ class Function:
             n = self.nodes[n]
         return '%s:%d' % (rel(n.get('fl', self.file)), n.get('l', self.line))
 
-    def text(self, i, depth=0):
-        """small pretty printer for diagnostics"""
+    def text(self, i, depth=0, expand=0):
+        """small pretty printer for diagnostics (expand > 0: follow that many single-assignment locals)"""
         if i is None or i < 0:
             return '?'
         n = self.nodes[i]
@@ -470,6 +595,8 @@ class Function:
         ch = n.get('ch', [])
         if depth > 6:
             return '…'
+        if expand:
+            return self._xtext(i, depth, expand)
         if k in STRIP or k in ('CXXStaticCastExpr', 'CXXReinterpretCastExpr', 'CStyleCastExpr',
                                'CXXFunctionalCastExpr', 'CXXConstCastExpr'):
             return self.text(ch[0], depth) if ch else k
@@ -499,6 +626,44 @@ class Function:
         if k == 'ReturnStmt':
             return 'return ' + (self.text(ch[0], depth + 1) if ch else '')
         return k
+
+
+def _xtext(self, i, depth, expand):
+    """text with expansion: implemented by temporarily splicing the initialiser text in place of the local"""
+    n = self.nodes[i]
+    k = n['k']
+    ch = n.get('ch', [])
+    if k in STRIP or k in ('CXXStaticCastExpr', 'CXXReinterpretCastExpr', 'CStyleCastExpr',
+                           'CXXFunctionalCastExpr', 'CXXConstCastExpr'):
+        return self.text(ch[0], depth, expand) if ch else k
+    if k == 'DeclRefExpr':
+        if n.get('id') in self.single_defs and expand > 0 and not any(
+                self.nodes[d]['k'] in ('CallExpr', 'CXXMemberCallExpr', 'CXXOperatorCallExpr', 'CXXConstructExpr',
+                                       'LambdaExpr') for d in self.descendants(self.single_defs[n['id']])):
+            # a name for a pure sub-expression (no call): transparent
+            init = self.strip(self.single_defs[n['id']])
+            t = self.text(init, depth + 1, expand - 1) if expand > 1 else self.text(init, depth + 1)
+            m = self.nodes[init] if init is not None and init >= 0 else {}
+            return '(%s)' % t if m.get('k') in ('BinaryOperator', 'ConditionalOperator') else t
+        return n['dn'].split('::')[-1]
+    T = lambda c, d=depth + 1: self.text(c, d, expand)  # noqa: E731
+    if k == 'MemberExpr':
+        b = T(ch[0]) if ch else ''
+        return (b + ('->' if n.get('arrow') else '.') if b != 'this' else '') + n['mn']
+    if k in ('BinaryOperator', 'CompoundAssignOperator'):
+        return '%s %s %s' % (T(ch[0]), n['op'], T(ch[1]))
+    if k == 'UnaryOperator':
+        return (T(ch[0]) + n['op']) if n.get('post') else (n['op'] + T(ch[0]))
+    if k in ('CXXMemberCallExpr',):
+        return '%s(%s)' % (T(ch[0]), ', '.join(T(a) for a in n['args']))
+    if k in ('CallExpr', 'CXXOperatorCallExpr'):
+        return '%s(%s)' % (n.get('cn', '?').split('::')[-1], ', '.join(T(a) for a in n['args']))
+    if k in ('CXXConstructExpr', 'CXXTemporaryObjectExpr'):
+        return '%s{%s}' % (n.get('cr', '?').split('::')[-1], ', '.join(T(a) for a in n['args']))
+    return self.text(i, depth)
+
+
+Function._xtext = _xtext
 
 
 def rel(path):
